@@ -49,6 +49,11 @@ def norm(m, foreign=False):
     return m
 
 
+def _marks(text):
+    import re
+    return len(re.findall(r'@+', text)) + len(re.findall(r'[/\\]', text))
+
+
 def check_descriptions(acc, m0, tag, numberings, chooser_bound, rdkit_text=None, api_spec=None, foreign_norm=True):
     from chython import smiles
     ood = domain(m0)
@@ -135,6 +140,10 @@ def check_descriptions(acc, m0, tag, numberings, chooser_bound, rdkit_text=None,
     if rdkit_text is not None:
         from rdkit import Chem
         rd = Chem.MolFromSmiles(rdkit_text)
+        if rd is not None and _marks(Chem.MolToSmiles(rd)) < _marks(rdkit_text):
+            # the other toolkit does not carry this kind of stereo (allene centres, cis/trans of longer cumulenes): its spellings describe another, unlabelled, molecule
+            acc.ood['stereo kind not carried by the other toolkit: its spellings are not used'] += 1
+            rd = None
         if rd is not None:
             texts = set()
             n = rd.GetNumAtoms()
@@ -239,6 +248,9 @@ def run_text(shard):
     rows = [('stereo', s) for s in inputs.ring_stereo_family()]
     rows += [('radical', s) for s in ('C[CH]C |^1:1|', '[CH3] |^1:0|', 'C[O] |^1:1|', 'CC(C)[CH2] |^1:3|', '[CH2]CC[CH2] |^1:0,3|', 'C1CC1[CH]C |^1:3|')]
     rows += [('multi', s) for s in ('[Na+].[Cl-]', 'CC(=O)[O-].[Na+]', 'CCO.CCO', 'C1CC1.CC.O', 'c1ccccc1.Cl', 'CC[NH3+].[Cl-].O')]
+    # several ring-bearing components: ring-closure digits across components, components whose atoms look alike locally
+    rows += [('multi-ring', s) for s in ('c1ccccc1.c1ccc2ccccc2c1', 'C1CC1.C1CC2CCC1C2', 'Cc1ccc(cc1)S(=O)(=O)[O-].C[NH+]1CCC2CCCCC2C1', 'C1CCCCC1.C1CC1', 'C1CCC1.C1CC1', 'C1CCCCC1.C1CCCC1',
+                                        'C1CCCCC1.c1ccccc1.C1CC1', 'C1CCOCC1.C1CCOC1', 'OC(=O)c1ccccc1.C1CCC2CCCCC2C1', 'C1CC1.C1CC1.C1CCC1', 'c1ccncc1.c1ccc2ncccc2c1', 'CC1CC1.CC1CCC1')]
     rows += [('iso', s) for s in ('[13CH3]C', 'C[13CH2]C', '[2H]C([2H])C', 'C[15NH2]', '[18OH]C')]
     # stereocentres carrying an isotopic hydrogen ATOM (kept as an atom by both toolkits): the hydrogen takes every position in the spellings of the other toolkit
     rows += [('isoH', s) for s in ('[2H][C@](C)(O)CC', 'C[C@](O)([2H])CC', 'N[C@@]([2H])(C)C(=O)O', '[3H][C@](F)(Cl)Br', 'C[C@@]([2H])(O)c1ccccc1', 'C[C@]1([2H])CCCO1', 'F[C@]([2H])(Cl)[C@@]([2H])(F)Br')]
